@@ -419,7 +419,7 @@ def run_scenario(sc, tick_ns=10 ** 9, end_tick=None, seed=0, weights=None):
     tr = _trace(prm, rep_cap(pol), [max(1, w) for w in Wt], [a["p"] for a in sc["arr"]],
                 [a["f"] for a in sc["arr"]], sc["lim"], rec.log,
                 idle=0 if weights is not None else 1, order=1, cnt=1, sink=1,
-                fin=[q.stats_accepted, completed], wk=wk, sc=sc, wt=weights)
+                fin=[q.stats_accepted, completed] if end_tick is None else [-1, -1], wk=wk, sc=sc, wt=weights)
     if not modelled:
         tr["hassc"] = 0
     return tr, err
